@@ -63,22 +63,28 @@ def stub_fidelity():
     class Boom(Exception):
         pass
 
+    class Stop(StopIteration):
+        pass
+
     checked = 0
     for n_items in (0, 1, 3, 7, 16, 33):
         for procs in (1, 2, 4, 7):
           for chunksize in (None, None, 0, 1, 3, 50):
+           for stop_kind in (False, True):
             for fail_at in (None, 0, n_items // 2, n_items - 1):
                 if fail_at is not None and not (0 <= fail_at < n_items):
                     continue
                 if chunksize is not None and procs not in (2, 7):
                     continue
+                if stop_kind and (fail_at is None or procs != 1):
+                    continue  # completion order matters for the shape of a cut-short result: one worker only
                 seen_real, seen_sim = [], []
 
                 def make(seen):
                     def f(x):
                         seen.append(x)
                         if x == fail_at:
-                            raise Boom(x)
+                            raise (Stop(x) if stop_kind else Boom(x))
                         return x * x
 
                     return f
